@@ -24,3 +24,10 @@ func Use(e *Entry) uint64 {
 	e.Val = e.Val + 1
 	return e.Key
 }
+
+// a package-level variable (translated as a constant)
+var Levelf uint64 = 3
+
+func ReadLevelf() uint64 {
+	return Levelf + 1
+}
